@@ -264,8 +264,8 @@ func runPM(t *testing.T, s pmSc) (res verifsim.Result) {
 	return
 }
 
-func TestVerif_C07_History(t *testing.T) {
-	verifsim.RunCheck(t, verifsim.Check[pmSc]{
+func c07HistoryCheck() verifsim.Check[pmSc] {
+	return verifsim.Check[pmSc]{
 		Property: "C07", Part: "history",
 		Rule: "rapid state machine under synctest virtual time: 1-30 operations over 7 keys (incl. keys whose base32 forms are string prefixes of each other) and 6 peers with LRU size 1-3 " +
 			"(key count exceeds it) and GC interval 0/70/300/1100 s: add (local/remote, with/without address), get, clock advance around the 1000 s validity, restart on the same datastore, " +
@@ -326,7 +326,14 @@ func TestVerif_C07_History(t *testing.T) {
 			return s
 		},
 		Run: func(t *testing.T, s pmSc) verifsim.Result { return runPM(t, s) },
-	})
+	}
+}
+
+func TestVerif_C07_History(t *testing.T) { verifsim.RunCheck(t, c07HistoryCheck()) }
+
+// the same generator and oracle driven by Go's coverage-guided fuzzer (thorough tier)
+func FuzzVerif_C07_History(f *testing.F) {
+	verifsim.RunFuzz(f, c07HistoryCheck(), "TestVerif_C07_History")
 }
 
 // ---------- part: interleave (adders / readers / sweep at datastore-call granularity) ----------
